@@ -38,12 +38,7 @@ from .ber import decode_real
 
 
 class Type(ber.StandardDecodeMixin, ber.Type):
-
-    def set_tag(self, number, flags):
-        if not Class.APPLICATION & flags:
-            flags |= Class.CONTEXT_SPECIFIC
-
-        super().set_tag(number, flags)
+    pass
 
 
 class StringType(StandardEncodeMixin, Type):
